@@ -67,11 +67,9 @@ pub fn gen_req(rng: &mut Rng, keep: bool, noise_level: u64, mc: usize, bufsize: 
     // ---- handler script
     let mut ops: Vec<String> = vec![]; let mut reads_all = vec![]; let mut outs = vec![];
     let streams = role_streams(role);
-    // large-buffer requests avoid the read-to-end op: the MODEL's handler fuel per poll is 1000 + 4·(bytes still in the transport), and
-    // read-to-end takes one unit per 64 bytes — with > 64 KB already buffered in a > 64 KiB parser buffer the model (not the code)
-    // would run out (a model-fuel artefact, DESIGN §14.4); single reads of up to 70 000 bytes cost one unit each
+    // (the model's handler fuel now counts the parser's buffer capacity, so read-to-end is fine with > 64 KiB buffers too)
     let large = bufsize > 65_535;
-    let read_mode = if large { *rng.pick(&[1u64, 1, 2, 4]) } else { rng.below(5) };
+    let read_mode = rng.below(5);
     for (i, &s) in streams.iter().enumerate() {
         if i > 0 { ops.push(format!("s{s}")); }
         match read_mode {
